@@ -473,6 +473,19 @@ def b_getattr(eng, st, args, kwargs):
                 out.append((s, args[2]))
             else:
                 out.append((s, eng.raise_py(s, AttributeError, name.as_string())))
+        except Exception as e:
+            if type(e).__name__ != "MessageAttrFork":
+                raise
+            # opaque message whose class is not determined: one path per class that has the field, the default otherwise
+            for c in e.feas:
+                s3 = s.clone()
+                s3.assume(typeof_f(e.v.e) == cls_code(c))
+                out.append((s3, eng.msg_field_value(s3, c, name.as_string(), e.v.e)))
+            if e.other:
+                s3 = s.clone()
+                for c in e.feas:
+                    s3.assume(typeof_f(e.v.e) != cls_code(c))
+                out.append((s3, args[2] if len(args) > 2 else eng.raise_py(s3, AttributeError, name.as_string())))
     return out
 
 
